@@ -49,7 +49,7 @@ theorem reset_holder_forgets (w : World) (hard : Bool) (hi : w.h.arch.isSome = t
 theorem reinit_holder_forgets (w : World) (hi : w.h.arch.isSome = true) :
     w.reinit.1.h.obs = ({ arch := w.h.arch, secs := [textSection], attached := w.h.attached } : Holder).obs := by
   have : w.h.arch.isNone = false := by cases h : w.h.arch <;> simp_all
-  simp [World.reinit, this, Holder.resetContainers, Holder.obs]
+  simp [World.reinit, this, Holder.resetContainers, Holder.obs, Holder.alloc]
 
 /-! ### 2. a reset world is a fresh world -/
 
@@ -165,7 +165,7 @@ theorem reinit_sim (a b : World) (h : Sim a b) : Sim a.reinit.1 b.reinit.1 ∧ a
   split
   · exact ⟨h, rfl⟩
   · refine ⟨sim_of_parts ?_ ?_, rfl⟩
-    · simp [Holder.resetContainers, Holder.obs, harch, hatt]
+    · simp [Holder.resetContainers, Holder.obs, Holder.alloc, harch, hatt]
     · simp only [reinitAll]
       rw [hatt]
       exact applyAll_congr _ onReinit_resp _ _ _ he
@@ -226,7 +226,7 @@ theorem init_sim (a b : World) (ar : Arch) (h : Sim a b) : Sim (a.init ar).1 (b.
     have h3 := congrArg Holder.unres hh
     have h4 := congrArg Holder.attached hh
     simp only [Holder.obs] at h1 h2 h3 h4 ⊢
-    simp [h1, h2, h3, h4]
+    simp [h1, h2, h3, h4, Holder.alloc]
 
 theorem attach_sim (a b : World) (i : Nat) (h : Sim a b) : Sim (a.attach i).1 (b.attach i).1 ∧ (a.attach i).2 = (b.attach i).2 := by
   obtain ⟨hh, he⟩ := sim_parts h
@@ -291,7 +291,7 @@ theorem detach_sim (a b : World) (i : Nat) (h : Sim a b) : Sim (a.detach i).1 (b
 theorem lifecycle_step_sim (a b : World) (op : Op) (hop : op.lifecycle = true) (h : Sim a b) :
     Sim (a.step op).1 (b.step op).1 ∧ (a.step op).2 = (b.step op).2 := by
   cases op <;> simp only [Op.lifecycle, Bool.false_eq_true] at hop
-  case world f => exact ⟨rfl, rfl⟩
+  case world f st => exact ⟨rfl, rfl⟩
   case init ar => exact init_sim a b ar h
   case reset hard => exact ⟨reset_sim a b hard h, rfl⟩
   case reinit => exact reinit_sim a b h
@@ -613,7 +613,7 @@ theorem freshAttached_is_init_then_attach (w : World) (hw : Inv w) (hA : InvA w)
     rw [h1, h2, hf, h3]
   apply sim_of_parts
   · have hfh : (freshOf fam).h = ({} : Holder) := by cases fam <;> rfl
-    simp [World.step, World.init, hfh, partialFA, freshHolder, ha, Holder.obs]
+    simp [World.step, World.init, hfh, partialFA, freshHolder, ha, Holder.obs, Holder.alloc]
   · have hfh : (freshOf fam).h = ({} : Holder) := by cases fam <;> rfl
     simp [World.step, World.init, hfh, hes]
 
@@ -668,7 +668,39 @@ theorem holder_fields_of_sim {a b : World} (h : Sim a b) :
   have h6 := congrArg Holder.attached hh
   exact ⟨h1, h2, h3, h4, h5, h6⟩
 
+/-! ### 7. arena memory: static vs dynamic, block sizes, retained blocks -/
+
+/-- replacing the holder's arena by ANY arena state - other static buffer, other block sizes (`shift`), other chain of
+    retained blocks, other fill level - gives an indistinguishable world … -/
+theorem any_arena_sim (w : World) (ar : Arena.State) : Sim ({ w with h := { w.h with arena := ar } } : World) w := rfl
+
+/-- … hence **no program's answers or dumps depend on the arena**: not on static vs dynamic memory, not on the size of
+    the static buffer, not on block sizes or on blocks retained by earlier soft resets. (In the model an arena request
+    cannot fail - `mallocMax` = 2^40 - so this is about layout, not about out-of-memory; failures are property C15's.) -/
+theorem arena_never_reaches_output (w : World) (ar : Arena.State) (p : List Op) :
+    ({ w with h := { w.h with arena := ar } } : World).trace p = w.trace p ∧
+      dumpCode (({ w with h := { w.h with arena := ar } } : World).run p) = dumpCode (w.run p) := by
+  have := no_residue p _ _ (any_arena_sim w ar)
+  exact ⟨this.1, dumpCode_of_sim this.2⟩
+
+/-- in particular for the two ways a `CodeHolder` is constructed -/
+theorem static_vs_dynamic_arena (w : World) (s1 s2 : Nat) (p : List Op) :
+    (w.withArena s1).trace p = (w.withArena s2).trace p ∧ dumpCode ((w.withArena s1).run p) = dumpCode ((w.withArena s2).run p) := by
+  have h : Sim (w.withArena s1) (w.withArena s2) := rfl
+  have := no_residue p _ _ h
+  exact ⟨this.1, dumpCode_of_sim this.2⟩
+
 /-! ### non-vacuity -/
+
+-- the arena really is driven by the operations and really differs between configurations:
+-- a 64-byte static buffer overflows into malloc'ed blocks, the default holder starts with no block at all
+example : (World.fresh.withArena 64).h.arena.blocks = [48] ∧ World.fresh.h.arena.blocks = [] := by decide
+example : ((World.fresh.withArena 64).run [.init .x64, .attach 0, .label 0, .nlabel 0 [102], .section 0 [46, 100]]).h.arena.blocks.length = 2 ∧
+    ((World.fresh.withArena 40000).run [.init .x64, .attach 0, .label 0, .nlabel 0 [102], .section 0 [46, 100]]).h.arena.blocks.length = 1 := by decide
+-- a soft reset keeps the blocks, a hard reset drops the malloc'ed ones
+example : (((World.fresh.withArena 64).run [.init .x64, .attach 0, .section 0 [46, 100]]).reset false).h.arena.blocks.length = 2 ∧
+    (((World.fresh.withArena 64).run [.init .x64, .attach 0, .section 0 [46, 100]]).reset true).h.arena.blocks.length = 1 := by decide
+
 
 /-- a history that fills every container (labels, a named label, fixups, a relocation, a second section, Builder nodes,
     a pending one-shot option, virtual registers, a jump annotation) … -/
@@ -709,7 +741,7 @@ example : ¬ Sim ((World.fresh.run [.opt 0 optShort, .init .x64]).reset false) W
 
 -- AArch64 emitters: a history with b-fixups, a relocation, Builder nodes, then reset / reinit
 def sampleHistoryA64 : List Op :=
-  [.world true, .init .a64, .attach 0, .attach 2, .attach 3, .label 0, .jmp 0 0, .raw 0 [31, 32, 3, 213], .elabel 0 0 8,
+  [.world true 4096, .init .a64, .attach 0, .attach 2, .attach 3, .label 0, .jmp 0 0, .raw 0 [31, 32, 3, 213], .elabel 0 0 8,
    .label 2, .jmp 2 1, .bind 2 1, .finalize 2, .vreg 3, .jann 3, .opt 0 optShort]
 example : (World.fresh.run sampleHistoryA64).h.unres = 2 ∧ (World.fresh.run sampleHistoryA64).h.relocs.length = 1 ∧
     ¬ Sim (World.fresh.run sampleHistoryA64) World.freshA64 := by decide
